@@ -217,6 +217,26 @@ func c20Op(st *c20State, op string, inputs [][]byte) (res int) {
 			}
 		}
 		return int(h.Sum32() & 0x3fffffff)
+	case "R":
+		// remux: every other sample of the first fragment goes into a new fragment (trick-play style extraction)
+		if st.f.Init == nil || st.f.Init.Moov.Mvex == nil || len(st.f.Segments) == 0 || len(st.f.Segments[0].Fragments) == 0 {
+			return -2
+		}
+		trex := st.f.Init.Moov.Mvex.Trex
+		fs, err := st.f.Segments[0].Fragments[0].GetFullSamples(trex)
+		if err != nil {
+			return dig([]byte(err.Error()))
+		}
+		nf, err := mp4.CreateFragment(77, trex.TrackID)
+		if err != nil {
+			return dig([]byte(err.Error()))
+		}
+		for i := 0; i < len(fs); i += 2 {
+			nf.AddFullSample(fs[i])
+		}
+		var b bytes.Buffer
+		err = nf.Encode(&b)
+		return dig(b.Bytes()) ^ dig([]byte(fmt.Sprint(err)))
 	case "X":
 		if st.f.Init == nil {
 			return -2
